@@ -108,11 +108,15 @@ def prove(run, dts=(0.125, 0.5), key="C09"):
                         return getattr(x, "_evolve_" + method)(hh, dt), x
                     jobs = [("prop_and_compress", {}, [Fraction(1, math.factorial(k)) for k in range(5)]),
                             ("prop_and_compress_tdrk4", {}, [Fraction(1, math.factorial(k)) for k in range(5)])]
+                    # every user-selectable Taylor order (the number of summands of the compressed sum changes with it: 2 .. 8 terms)
+                    if form == "state":
+                        for order in (1, 2, 3, 5, 6, 7):
+                            jobs.append(("prop_and_compress", {"taylor_order": order}, [Fraction(1, math.factorial(k)) for k in range(order + 1)]))
                     for sol in SINGLE_ROW:
                         jobs.append(("prop_and_compress_tdrk", {"rk_solver": sol}, stage_poly(RungeKutta(sol))))
                     for method, kw, coeffs in jobs:
                         ncase += 1
-                        tag = f"{method}{':' + kw['rk_solver'] if kw else ''}@{name}{n}:{form}:dt={dt}"
+                        tag = f"{method}{':' + str(kw.get('rk_solver', 'order' + str(kw.get('taylor_order')))) if kw else ''}@{name}{n}:{form}:dt={dt}"
                         case = {"model": name, "nsites": n, "form": form, "dt": str(dt), "method": method, "config": kw, "stage_polynomial": [str(c) for c in coeffs]}
                         fn = f"Mps._evolve_{method}"
 
